@@ -328,6 +328,34 @@ def geometric(U):
     U.assume_note("axioms: pow(f, .) monotone for f > 1, pow(f, log(x)/log(f)) = x for x > 0, sqrt(f) > 1, f^(-1/2) > 0, log(f) > 0 (properties of the real power / log functions for f > 1)")
 
 
+def geometric_init(U):
+    """GeometricInterrupts.__init__: the precondition `scale > 0, factor > 1` of the `next` contract is established by the
+    constructor itself -- whatever it accepts defines a strictly increasing schedule scale*factor^k (for 0 < factor <= 1 or
+    scale <= 0 the sequence is not increasing and `next` answers times that are earlier than the query or repeat)"""
+    def body(it):
+        scale, factor = z3.Real("scale"), z3.Real("factor")
+        obj = it.instantiate(_cls(it, "GeometricInterrupts"), [scale, factor], {})
+        return obj, scale, factor
+
+    n_ret = 0
+    for p, res in enumerate(explore_paths(U, body)):
+        P = prem_of(res.ctx)
+        scale, factor = z3.Real("scale"), z3.Real("factor")
+        if res.outcome != "return":
+            U.prove(f"Geometric.__init__.path{p}.rejects_only_parameters_without_an_increasing_schedule", P,
+                    z3.Not(z3.And(scale > 0, factor > 1)), info={"exc": str(res.exc)})
+            continue
+        n_ret += 1
+        obj, scale, factor = res.value
+        U.prove(f"Geometric.__init__.path{p}.accepted_factor>1_(schedule_scale*factor^k_increases)", P, factor > 1)
+        U.prove(f"Geometric.__init__.path{p}.accepted_scale>0", P, scale > 0)
+        U.prove(f"Geometric.__init__.path{p}.parameters_kept", P,
+                z3.And(to_z3(obj.attrs["scale"]) == scale, to_z3(obj.attrs["factor"]) == factor))
+        U.prove(f"Geometric.__init__.path{p}.no_previous_answer_yet", P, z3.BoolVal(obj.attrs.get("_t_next", 0) is None))
+        U.cover(f"Geometric.__init__.path{p}.cover", P + [scale > 0, factor > 1])
+    U.prove("Geometric.__init__.some_parameters_are_accepted", [], z3.BoolVal(n_ret > 0))
+
+
 def _subterms(t):
     seen, todo = set(), [t]
     while todo:
@@ -395,6 +423,7 @@ UNITS = [
     ("Fixed.initialize", fixed_initialize),
     ("Fixed.next", fixed_next),
     ("Fixed.exhausted", fixed_exhausted),
+    ("Geometric.__init__", geometric_init),
     ("Geometric.next", geometric),
     ("parse_interrupt", parse_interrupt_dispatch),
 ]
@@ -402,7 +431,7 @@ UNITS = [
 TRUSTED = ["ghost lattice index k and the witness k' = k+1+ceil(..) are contract-side terms; ceil/floor exact over ToInt"]
 ASSUMPTIONS = [
     "FixedInterrupts: the given list is strictly increasing (precondition from the statement)",
-    "GeometricInterrupts: scale > 0, factor > 1, queries t > 0; power/log axioms as listed",
+    "GeometricInterrupts.next: scale > 0, factor > 1 (established by the constructor, unit Geometric.__init__), queries t > 0; power/log axioms as listed",
     "queries need not be monotone for the proved clauses; 'up to round-off' is exact in real arithmetic",
 ]
 NOT_COVERED = ["RealtimeInterrupts (wall clock; the statement says deterministic types)"]
